@@ -120,11 +120,12 @@ def _edit(kind):
         if kind == "update":
             E.prove("C06.StaticGenerativeFunction.edit_update.bwd_is_update_of_per_site_constraints", E.And(
                 isinstance(bwd, Obj) and bwd.cls.name == "Update",
-                E.eq(bwd.fields["constraint"], UVal(SL.chm_of_chms(sites.has, vals), "ChoiceMap"))))
+                E.eq(fld(E, bwd, "constraint"), UVal(SL.chm_of_chms(sites.has, vals), "ChoiceMap"))))
         else:
             E.prove(f"C06.StaticGenerativeFunction.edit_{kind}.bwd_is_static_request_of_per_site_requests", E.And(
                 isinstance(bwd, Obj) and bwd.cls.name == "StaticRequest",
-                bwd.fields["addressed"].has == sites.has, bwd.fields["addressed"].val == vals))
+                isinstance(fld(E, bwd, "addressed"), SymMap) and E.And(
+                    fld(E, bwd, "addressed").has == sites.has, fld(E, bwd, "addressed").val == vals)))
         E.refutable(f"static.gfi.edit_{kind}", E.eq(w, 0.0))
     return t
 
